@@ -12,7 +12,7 @@ from vf import automata, contracts, drivers, recipes
 PROPERTY = "C20"
 LEVEL = "exploration"
 SHARDS = {"quick": 4, "thorough": 16}
-REQUIRED = ["bare-vs-wrapped", "invoked-exactly-once", "edit-one-header", "inner-error", "wrapped-protocol", "close-propagation"]
+REQUIRED = ["bare-vs-wrapped", "invoked-exactly-once", "edit-one-header", "inner-error", "wrapped-protocol", "close-propagation", "overlapped-requests"]
 RULE = ("Inner applications = generated response recipes of every class (several cookies, repeated/appended headers, unknown statuses, 0/1/many-chunk streams, SSE, "
         "files incl. 0-byte and ranges) used directly or behind request_response, plus raw gateway apps (list / tuple / generator / custom iterable bodies, one or many "
         "ASGI body events, repeated headers, odd reason phrases), plus apps raising before / after start or mid-body; wrapped in identity `middleware` stacks of depth "
@@ -189,6 +189,70 @@ def compare(ctx, iface, recipe, wrapper, depth, req_desc, bare, wrapped, count, 
         ctx.violation(f"wrapped-protocol|{w}|{iface}", case, d)
 
 
+def overlapped_requests(ctx, rng):
+    """two ASGI requests are in flight at once through ONE middleware-wrapped application (each inner response awaits
+    between its events): each client must get exactly what the bare application gives it"""
+    import asyncio
+
+    from baize import asgi
+    depth = rng.randrange(1, 3)
+    wrapper = rng.choice(["middleware", "edit"])
+    specs = [{"status": rng.choice([200, 201, 404]), "cookies": [f"c{j}=v{j}{k}; Path=/" for k in range(rng.randrange(0, 3))],
+              "extra": ("X-Who", f"req{j}"), "chunks": [b"body-%d-%d;" % (j, k) for k in range(rng.randrange(1, 4))]} for j in range(2)]
+    case = {"scenario": "two overlapped ASGI requests through one wrapped app", "wrapper": wrapper, "depth": depth, "responses": specs}
+
+    async def inner(scope, receive, send):
+        sp = specs[int(scope["path"][-1])]
+        await asyncio.sleep(0)
+        hl = [(b"set-cookie", c.encode()) for c in sp["cookies"]] + [(sp["extra"][0].lower().encode(), sp["extra"][1].encode())]
+        await send({"type": "http.response.start", "status": sp["status"], "headers": hl})
+        for c in sp["chunks"]:
+            await asyncio.sleep(0)
+            await send({"type": "http.response.body", "body": c, "more_body": True})
+        await asyncio.sleep(0)
+        await send({"type": "http.response.body", "body": b"", "more_body": False})
+    app = inner
+    m = {"middleware": identity_middleware, "edit": edit_middleware}[wrapper](asgi, "asgi")
+    for _ in range(depth):
+        app = m(app)
+    got = {}
+
+    async def client(j):
+        sent = []
+
+        async def send(msg):
+            sent.append(msg)
+            await asyncio.sleep(0)
+
+        async def receive():
+            await asyncio.Event().wait()
+        await app(drivers.to_scope(drivers.Req(path=b"/%d" % j)), receive, send)
+        got[j] = sent
+
+    async def both():
+        await asyncio.gather(client(0), client(1))
+    ctx.mon("overlapped-requests")
+    try:
+        drivers.loop().run_until_complete(asyncio.wait_for(both(), 30))
+    except Exception as e:
+        ctx.violation(f"overlapped-requests|exception|{type(e).__name__}", case, repr(e)[:200])
+        return case
+    for j, sp in enumerate(specs):
+        sent = got.get(j, [])
+        start = [x for x in sent if x["type"] == "http.response.start"]
+        body = b"".join(x.get("body", b"") for x in sent if x["type"] == "http.response.body")
+        hdrs = sorted((k.decode("latin-1"), v.decode("latin-1")) for k, v in (start[0]["headers"] if start else []))
+        want = sorted([("set-cookie", c) for c in sp["cookies"]] + [(sp["extra"][0].lower(), sp["extra"][1])] + ([("x-edited", "yes")] if wrapper == "edit" else []))
+        if len(start) != 1 or start[0]["status"] != sp["status"]:
+            ctx.violation("overlapped-requests|status-differs", case, f"request {j}: {[x.get('status') for x in start]} vs {sp['status']}")
+        elif hdrs != want:
+            ctx.violation("overlapped-requests|headers-of-one-request-leak-into-the-other" if any(h not in want and h[0] in ("set-cookie", "x-who") for h in hdrs)
+                          else "overlapped-requests|headers-differ", case, f"request {j}: got {hdrs}, bare gives {want}")
+        elif body != b"".join(sp["chunks"]):
+            ctx.violation("overlapped-requests|body-differs", case, f"request {j}: {body!r}")
+    return case
+
+
 def close_propagation(ctx, rng):
     """the server abandons a WSGI response after k chunks and calls close(): the inner application's iterable must be
     closed behind the middleware exactly as it is without it (PEP 3333: the only way the application learns about it)"""
@@ -301,6 +365,9 @@ def run(ctx):
         todo.append((rec, (rng.choice(["GET", "GET", "HEAD"]), [("Range", rh)] if rh is not None else [])))
     for i in range(ctx.scale(150, 6000)):
         case = close_propagation(ctx, rng)
+        ctx.case(repr(case))
+    for i in range(ctx.scale(150, 6000)):
+        case = overlapped_requests(ctx, rng)
         ctx.case(repr(case))
     for i, (rec, rq) in enumerate(todo):
         nt = run_case(ctx, rec, rq, rng)
